@@ -59,6 +59,24 @@ def case_row_moves(ctx, s: Subject):
         ctx.case(f"frame.{name}", {**s.desc(), "labels": labels, "op": name}, real, None,
                  {"ok": {"pairs": expect(pos), "cls": "NestedFrame"}}, hyp=s.hyp, features=s.features + (name,),
                  nontrivial=s.nontrivial())
+    # sorting by base columns on a frame whose labels REPEAT (positions move, labels are carried along)
+    if n >= 2:
+        dlabels = gen.rand_labels(rng, n, pattern=rng.choice(["dup_unsorted", "dup_sorted", "desc_dups"]))
+        nfd = mk_frame(s, dlabels).assign(key=np.array(key, dtype=np.int64), key2=np.array([i % 2 for i in range(n)], dtype=np.int64))
+        dlab = [export.label(l) for l in nfd.index.tolist()]
+        dops = [("sort_values(base,dup_labels)", lambda: nfd.sort_values("key", kind="stable"), sorted(range(n), key=lambda i: key[i])),
+                ("sort_values(base,desc,dup_labels)", lambda: nfd.sort_values("key", ascending=False, kind="stable"),
+                 sorted(range(n), key=lambda i: -key[i])),
+                ("sort_values(base2,dup_labels)", lambda: nfd.sort_values(["key2", "key"], kind="stable"),
+                 sorted(range(n), key=lambda i: (i % 2, key[i]))),
+                ("sort_values(base,inplace,dup_labels)",
+                 lambda: (lambda g: (g.sort_values("key", kind="stable", inplace=True), g)[1])(nfd.copy()),
+                 sorted(range(n), key=lambda i: key[i]))]
+        for name, f, pos in dops:
+            real = call_real(lambda: {"pairs": frame_pairs(f()), "cls": type(f()).__name__})
+            ctx.case(f"frame.{name}", {**s.desc(), "labels": dlabels, "op": name, "key": key}, real, None,
+                     {"ok": {"pairs": [[dlab[i], i, rows[i]] for i in pos], "cls": "NestedFrame"}}, hyp=s.hyp,
+                     features=s.features + (name,), nontrivial=s.nontrivial())
 
 
 # ---- C06 at the frame level: nf["nest.field"] = value -----------------------------------------------
